@@ -108,7 +108,7 @@ theorem mem_flattenDict {expr : String} {r : Bool} {fmt : Fmt} {cols : List (Fie
   unfold flattenDict at h
   rcases mem_foldl_itemSet (fun fc : Field × Col => (⟨fmt.format expr fc.1.text, ⟨expr, some fc.1, r⟩, fc.2⟩ : Item)) h with h | ⟨a, ha, rfl⟩
   · simp at h
-  · exact ⟨a, (List.mem_filter.mp ha).1, rfl⟩
+  · exact ⟨a, ha, rfl⟩
 
 /-- every entry of a flattened encoded factor carries the structural label of the column it holds,
 and is printed from that label -/
